@@ -718,7 +718,7 @@ func (x *c01Ctx) wiringE(d *c01Dir) {
 		if ok {
 			knLeaves = nil
 		}
-		x.keyNameChoiceG(g, "Encrypt manifest key name", pos, v, knLeaves, []c01Choice{
+		x.keyNameChoiceG(g, "Encrypt manifest key name", pos, v, knLeaves, g.nodeOf(wrap.C, wrap.V.(*ssa.Call)), []c01Choice{
 			{src: "const:", underField: "OmitKeyName", underBool: true},
 			{src: eo + ".DecryptionKeyName"},
 			{src: eo + ".KeyName", underField: "DecryptionKeyName", underEmpty: true},
@@ -797,7 +797,7 @@ func (x *c01Ctx) wiringD(d *c01Dir) {
 	a1 := g.srcSet(g.sources(c01StripConv(g, g.arg(u, 1))))
 	r.Check(allLoadsOf(a0, "WFK") && allLoadsOf(a1, "KeyWrappingAlgorithm"), c01R8, "Decrypt unwraps the manifest's key", pos, "UnwrapKeyFn(manifest.WFK, manifest.KeyWrappingAlgorithm, …)",
 		fmt.Sprintf("UnwrapKeyFn is given %s and %s instead of the manifest's wrapped key and key-wrapping algorithm", g.descSet(a0), g.descSet(a1)))
-	x.keyNameChoiceG(g, "Decrypt key name", pos, g.arg(u, 2), nil, []c01Choice{
+	x.keyNameChoiceG(g, "Decrypt key name", pos, g.arg(u, 2), nil, g.nodeOf(u.C, u.V.(*ssa.Call)), []c01Choice{
 		{src: "DecryptOptions.KeyName"},
 		{src: "Manifest.KeyName", underField: "KeyName", underType: "DecryptOptions", underEmpty: true},
 	}, "the key name handed to UnwrapKeyFn must be the caller's override when given, else the manifest's")
@@ -805,7 +805,7 @@ func (x *c01Ctx) wiringD(d *c01Dir) {
 
 // keyNameChoiceG: v is a choice (phi / return-phi tree) over exactly the
 // given sources, each guarded source selected only under its guard.
-func (x *c01Ctx) keyNameChoiceG(g *cGraph, cons, pos string, v CV, pre []cgLeaf, choices []c01Choice, what string) {
+func (x *c01Ctx) keyNameChoiceG(g *cGraph, cons, pos string, v CV, pre []cgLeaf, at *cgNode, choices []c01Choice, what string) {
 	r := x.r
 	type leaf struct {
 		src     string
@@ -814,6 +814,10 @@ func (x *c01Ctx) keyNameChoiceG(g *cGraph, cons, pos string, v CV, pre []cgLeaf,
 	}
 	var leaves []leaf
 	seen := map[CV]bool{}
+	var useConds []cgCond
+	if at != nil {
+		useConds = g.domConds(at)
+	}
 	var curEmpties []CV
 	var walk func(v CV, conds []cgCond, d int)
 	walk = func(v CV, conds []cgCond, d int) {
@@ -840,6 +844,10 @@ func (x *c01Ctx) keyNameChoiceG(g *cGraph, cons, pos string, v CV, pre []cgLeaf,
 			seen[v] = true
 			j := g.joinOf(v)
 			for _, e := range edges {
+				// a return of a helper that the caller's tests on the other results (err == nil, ok) rule out
+				if j != nil && at != nil && !g.retFeasible(j, e.Pred, useConds) {
+					continue
+				}
 				var cs []cgCond
 				if j != nil {
 					cs = g.condsOnEdge(e.Pred, j)
@@ -994,8 +1002,14 @@ func (x *c01Ctx) pushbackG(d *c01Dir) {
 	}
 	cons := hname + " pushes back the surplus"
 	// the stream the segment phase reads
-	segStream := g.deep(CV{d.fill.n.C, d.fill.call.Call.Value})
-	hdrStream := g.deep(CV{h.n.C, h.call.Call.Value})
+	segRecv, ok1 := g.readReceiver(CV{d.fill.n.C, d.fill.call})
+	hdrRecv, ok2 := g.readReceiver(CV{h.n.C, h.call})
+	if !ok1 || !ok2 {
+		r.Undecide("C01.R7: the stream a Read call of %s reads from cannot be identified (function value of unknown shape)", d.root)
+		return
+	}
+	segStream := g.deep(segRecv)
+	hdrStream := g.deep(hdrRecv)
 	// does the header Read offer more than one byte at a time?
 	if w, ok := g.deep(CV{h.n.C, h.call.Call.Args[0]}).V.(*ssa.Slice); ok && w.High != nil && w.Low != nil {
 		lo, hi := g.lin(CV{h.n.C, w.Low}), g.lin(CV{h.n.C, w.High})
@@ -1016,6 +1030,17 @@ func (x *c01Ctx) pushbackG(d *c01Dir) {
 	}
 	cons2 := "Decrypt continues with the pushed-back stream"
 	if !mr.ok() {
+		// "the segment phase reads a stream that never received the push-back" is only established when every
+		// origin of that stream is understood: an io.Reader parameter of the entry point or a reader built by a call
+		for _, v := range vals {
+			_, isParam := v.V.(*ssa.Parameter)
+			_, isCall := v.V.(*ssa.Call)
+			_, isIface := v.V.(*ssa.MakeInterface)
+			if !(isParam && v.C == g.root) && !isCall && !isIface || !g.leafResolved(v) {
+				r.Undecide("C01.R7: the stream the segment phase reads has an origin the flow model does not understand (%s); push-back not decided", g.desc(v))
+				return
+			}
+		}
 		// is there a push-back at all, into some other variable?
 		any := g.callsTo("io", "", "MultiReader")
 		if len(any) == 0 {
